@@ -349,3 +349,4 @@ def run(ck: Check, repo: Repo) -> None:
     c03.rule_vcs_output_verbatim(ck, repo, "R9")
     from . import c18 as _c18
     _c18.rule_document_name(ck, repo, "R10")
+    c03.rule_meson_parent(ck, repo, "R11")
